@@ -414,6 +414,8 @@ void gen_atomic(Plan& p, Rng& r, uint64_t index)
     p.cfg.gf.no_path = false;
     p.cfg.gf.big = r.chance(1, 6);
     p.cfg.gf.rich = !r.chance(1, 4);  // mostly fully analysed tracks: conditional statements of setters all run
+    if (p.cfg.schema >= 11)
+        p.cfg.table_api = true;  // 2.x: opened through engine_library, so that the observation can include the table API's view
     // prefix: a short fault-free history
     int n = 2 + (int)r.below(7);
     p.steps.push_back(mk("create_track", r, 0, draw_size(r)));
